@@ -14,7 +14,8 @@ PREV = {
   "Marshal returning bytes of a pooled buffer",
   "the flags placeholder of the encoder inserted at slot 0 instead of FlagIndex()",
   "the decoder removing a vector hint from its queue only after the hinted vector was read (nested hinted vectors)",
-  "the decoder not giving a nesting level back on the scalar fast path of decodeValue (depth grows with the number of values)"
+  "the decoder not giving a nesting level back on the scalar fast path of decodeValue (depth grows with the number of values)",
+  "a canonical-form check in PopMessage that refuses the long length header for 254-byte strings"
  ],
  "C02": [
   "one header byte of the long-string length in the TL encoder",
@@ -23,7 +24,8 @@ PREV = {
   "Marshal returning bytes of a pooled buffer",
   "two same-width fields of ServerDHInnerData reordered",
   "the encoder treating every bool of a flag group as carried by its bit (flags.N?Bool loses its Bool word)",
-  "the flag bit numbers of two optional fields swapped in the hand-written InitConnectionParams"
+  "the flag bit numbers of two optional fields swapped in the hand-written InitConnectionParams",
+  "the 2^24 refusal bound of putLargeBytes turned into 2^31"
  ],
  "C03": [
   "the padding amount computed in ige.Encrypt",
@@ -32,7 +34,8 @@ PREV = {
   "isPacketEncrypted looking at only 4 bytes of the key id",
   "the declared-length bound of DeserializeEncrypted rewritten with >= (body that fills the packet refused)",
   "a sticky-error check added after the body read in DeserializeEncrypted (empty body refused)",
-  "a package-level scratch array for the SHA-1 inputs of generateAESIGE (send and receive overlap)"
+  "a package-level scratch array for the SHA-1 inputs of generateAESIGE (send and receive overlap)",
+  "serializePacket doubling the seq_no a second time"
  ],
  "C04": [
   "the integer type used in the declared-length check of DeserializeEncrypted",
@@ -41,7 +44,8 @@ PREV = {
   "binary.LittleEndian.Uint64 applied to a possibly nil PopRawBytes result in DeserializeUnencrypted",
   "the body taken as the rest of the packet instead of the declared length",
   "the key-id comparison moved into the msg_key failure branch",
-  "the msg_id parity test reduced to \"not divisible by 4\" in all three readers"
+  "the msg_id parity test reduced to \"not divisible by 4\" in all three readers",
+  "isPacketEncrypted losing its 8-byte guard behind a 4-byte early refusal in transport.ReadMsg"
  ],
  "C05": [
   "the bound of the padding-strip loop in DecryptMessageWithTempKeys",
@@ -50,7 +54,8 @@ PREV = {
   "SHA1(new_nonce+new_nonce) computed over the minimal-length Bytes() in generateTempKeys",
   "a deferred wipe zeroing the chaining blocks of the IGE cipher after each call",
   "the message-level Encrypt appending its padding to the caller's slice in place",
-  "ige.Decrypt cutting its input down to whole blocks before the length check"
+  "ige.Decrypt cutting its input down to whole blocks before the length check",
+  "ige.Decrypt refusing ciphertexts longer than 1 MiB"
  ],
  "C06": [
   "the byte width used for the salt derived from server_nonce",
@@ -59,7 +64,8 @@ PREV = {
   "an int64 conversion of pq inside SplitPQ",
   "new_nonce_hash1 compared as hex strings of minimal-length Bytes()",
   "the outer % 16 dropped from the padding of EncryptMessageWithTempKeys",
-  "PutMessage writing a 254-byte string in the short form (off-by-one at the tiny/large switch)"
+  "PutMessage writing a 254-byte string in the short form (off-by-one at the tiny/large switch)",
+  "RSAFingerprint trimming only one leading zero byte of the public exponent"
  ],
  "C07": [
   "a wrong variable in one of the nonce comparisons of makeAuthKey",
@@ -68,7 +74,8 @@ PREV = {
   "DecryptMessageWithTempKeys returning the untrimmed message when no SHA-1 prefix matches",
   "a deferred reset of service mode that also runs on the error exits",
   "a deferred recover in makeAuthKey that shadows err and returns nil",
-  "the wrong-kind exit of makeAuthKey returning errors.Wrapf(nil, ...)"
+  "the wrong-kind exit of makeAuthKey returning errors.Wrapf(nil, ...)",
+  "the fingerprint search comparing only the low 32 bits"
  ],
  "C08": [
   "a shift amount in the abridged length header writer",
@@ -77,7 +84,8 @@ PREV = {
   "the intermediate writer coalescing header and body in a too-small fixed buffer",
   "large bodies read with a single conn.Read bypassing the full-read helper",
   "the intermediate reader handing out a window of a reused receive buffer",
-  "tcpConn.Read turning (0, nil) into io.EOF"
+  "tcpConn.Read turning (0, nil) into io.EOF",
+  "transport.ReadMsg closing the connection after an error-code frame"
  ],
  "C09": [
   "registering the response waiter after the request was written",
@@ -86,7 +94,8 @@ PREV = {
   "the container decoder reusing one message object for all items",
   "the gzip loop dropping the bytes returned together with io.EOF",
   "a \"msg_id not newer than the last one\" filter at the top of processResponse",
-  "GenerateMessageId with 1 ms resolution (two in-flight requests share a table key)"
+  "GenerateMessageId with 1 ms resolution (two in-flight requests share a table key)",
+  "a bounded response table that evicts the oldest waiters beyond 256 entries"
  ],
  "C10": [
   "an early return that skips the acknowledgement in processResponse",
@@ -95,7 +104,8 @@ PREV = {
   "container items processed in goroutines that capture the loop variable",
   "acknowledgements written outside the send lock",
   "the same stale-msg_id filter in readMsg, dropping messages before they are acknowledged",
-  "a monotonic guard in GenerateMessageId that bumps a repeated id by one instead of four"
+  "a monotonic guard in GenerateMessageId that bumps a repeated id by one instead of four",
+  "MessageRequireToAck returning false for ping (even seq_no on a content-related message)"
  ],
  "C11": [
   "skipping the waiter notification when the new salt was already adopted",
@@ -104,7 +114,8 @@ PREV = {
   "the waiter repeating the request in place and returning whatever comes back unexamined",
   "the file store skipping the write when the session equals the one cached at Load",
   "adopting and saving the new salt only when a waiter is registered under bad_msg_id",
-  "SaveSession handing the store write to a goroutine"
+  "SaveSession handing the store write to a goroutine",
+  "registering the response waiter after the write (a bad_server_salt overtakes the sender)"
  ],
  "C12": [
   "opening the session file without truncation in Store",
@@ -113,7 +124,8 @@ PREV = {
   "Load returning the cached session when the file fails to parse",
   "the session directory probed with os.Lstat (symlinked directory refused)",
   "Load reading the session file through io.LimitReader",
-  "Store writing a temp file in os.TempDir() and renaming it across file systems"
+  "Store writing a temp file in os.TempDir() and renaming it across file systems",
+  "Load reporting a zero-length session file as not found"
  ],
  "C13": [
   "two parameters swapped in one generated method signature",
@@ -122,7 +134,8 @@ PREV = {
   "one method asserting a single constructor instead of its boxed result type",
   "two same-typed fields of NewSessionCreated swapped",
   "a hand-written wrapper method sending the bare query for one argument value",
-  "Poll.FlagIndex() returning 0 instead of 1"
+  "Poll.FlagIndex() returning 0 instead of 1",
+  "two constants of a generated enum carrying each other's constructor id"
  ],
  "C14": [
   "the vector-ness of a parameter dropped from the generator's argument grouping test",
@@ -131,7 +144,8 @@ PREV = {
   "the parser refusing flag bit 31 through an off-by-one range check",
   "the registry list deciding the Obj suffix with a different predicate than the declaration",
   "a sort over a copy whose comparator indexes the original slice",
-  "tlgen refusing a symlinked schema after os.Lstat"
+  "tlgen refusing a symlinked schema after os.Lstat",
+  "the parser skipping definitions whose name merely starts with a builtin type name"
  ],
  "C15": [
   "an integer overflow in the vector size bound of the decoder",
@@ -140,7 +154,8 @@ PREV = {
   "the no-hints guard testing nil instead of length zero",
   "a failed hinted vector returned as a non-nil wrapper with nil data (nil reflect.Type dereference)",
   "an unsynchronised package-level cache map written from parseTag",
-  "the enum arm of decodeObject letting a non-member id fall through to the struct code"
+  "the enum arm of decodeObject letting a non-member id fall through to the struct code",
+  "DumpWithoutRead failing with EOF at end of input, making DecodeUnknownObject return (nil, nil)"
  ],
  "C16": [
   "waiting on the goroutine wait-group from inside the reading goroutine on disconnect",
@@ -149,7 +164,8 @@ PREV = {
   "new_session_created waking every older waiter (send on a channel nobody reads)",
   "Reconnect clearing the encrypted flag so that a new key exchange runs",
   "UnwrapNativeTypes applied in the default arm of processResponse (nil reflect.Type on bare null)",
-  "the container decoder preallocating with the server-chosen count as capacity"
+  "the container decoder preallocating with the server-chosen count as capacity",
+  "the gzip inflate loop ending only on io.EOF (spins on a damaged stream)"
  ],
  "C17": [
   "an extra row in the error-prefix table",
@@ -158,7 +174,8 @@ PREV = {
   "a catalogue fast path in RpcErrorToNative that bypasses the prefix table",
   "the default data-centre table hoisted into a shared package variable",
   "registering the response waiter after the write in sendPacket",
-  "makeRequest silently re-issuing the request on rpc_error code -503"
+  "makeRequest silently re-issuing the request on rpc_error code -503",
+  "Reconnect reloading the stored session, which puts the old data centre address back"
  ],
  "C18": [
   "the 256-byte padding dropped on one SRP intermediate value",
@@ -167,7 +184,8 @@ PREV = {
   "B < p checked with bytes.Compare on the transmitted bytes",
   "a cached big.Int multiplier mutated in place by k.Mul(k, v)",
   "validateCurrentAlgo applied to the already padded/truncated B",
-  "PH2 memoised under PH1, which collides across (password, salt1) splits"
+  "PH2 memoised under PH1, which collides across (password, salt1) splits",
+  "calcSHA256 joining its parts in a fixed 1024-byte buffer"
  ],
  "C19": [
   "a math/rand fallback when crypto/rand fails",
@@ -176,7 +194,8 @@ PREV = {
   "server-supplied secure_random overwriting the crypto/rand bytes of the SRP ephemeral",
   "an out-of-range DH exponent clamped to a public constant",
   "tl.NewInt256() (zero) used instead of tl.RandomInt256() for new_nonce",
-  "a buffered crypto/rand reader whose short read leaves half of new_nonce zero"
+  "a buffered crypto/rand reader whose short read leaves half of new_nonce zero",
+  "nonce bytes passing through a shared, wiped package-level scratch buffer"
  ],
  "C20": [
   "lower-casing the whole URL path before template matching",
@@ -185,7 +204,8 @@ PREV = {
   "decoding the URL query into the result object after the path was mapped",
   "the error path of Resolve calling String() on the nil URL",
   "fixURLHost cutting the host at the last slash",
-  "strings.SplitN in matchPath letting the last template variable swallow extra segments"
+  "strings.SplitN in matchPath letting the last template variable swallow extra segments",
+  "the address-literal guard hoisted in front of fixURLHost (scheme-less bracketed host)"
  ]
 }
 TASK = 'You are helping test a verification framework by writing ONE realistic defect into a Go library. Work ONLY inside the git worktree /tmp/seed/{ID}-{R} (a checkout of the pure-Go MTProto/Telegram client library xelaj/mtproto). Do NOT read or write anything under /verif, /repo or /root/.vp, and do not look at other directories under /tmp/seed. Do NOT use `git stash` (the stash is shared with other worktrees): to run something without your change use `git diff > /tmp/seed/{ID}-{R}.patch; git apply -R /tmp/seed/{ID}-{R}.patch; ...; git apply /tmp/seed/{ID}-{R}.patch`.\n\nThe property the library is supposed to satisfy is in /tmp/seed/{ID}-{R}.prop.txt - read it first, then read the source files it names (and whatever they call).\n\nEnvironment (every shell call): `export GOFLAGS=-mod=mod GOPROXY=off GOSUMDB=off GOTOOLCHAIN=local` (no network, nothing can be downloaded). The repository has three Go modules: `.`, `internal/cmd/tlgen`, `telegram/deeplinks`. The existing test suite is: `for m in . internal/cmd/tlgen telegram/deeplinks; do (cd /tmp/seed/{ID}-{R}/$m && go test -vet=off -count=1 ./...) || echo FAILED; done` (building package telegram takes about a minute).\n\nTask: make ONE small, realistic change to the non-test source (the kind of slip, "simplification", "optimisation", "hardening", refactoring or well-meant "fix" a hurried maintainer could plausibly make and a reviewer could plausibly miss) such that the property NO LONGER HOLDS for some input / path / schedule / history, while (a) everything still compiles in all three modules and (b) the existing test suite still passes, unedited. Prefer a defect that needs something specific to manifest (a particular value shape, boundary, rare path, interleaving or error condition) over one that breaks every use. Keep the change minimal (1-12 lines). Previous testers already tried these: {PREV}. Choose a DIFFERENT place and mechanism from all of them. Go through the clauses of the property statement and its quantifier one by one, list which clause each earlier attempt attacked, and pick a clause (or a helper function, a caller, an initialisation, a cleanup path) nobody has touched; the less obvious the better, as long as the property is genuinely broken.\n\nDeliver, all inside /tmp/seed/{ID}-{R}:\n1. the change itself, left uncommitted in the worktree (source files only);\n2. a demonstration: NEW test file(s) named zz_seed_demo_test.go in the package(s) concerned (same-package tests may use unexported identifiers), test names starting with TestSeed, that FAIL with your change and PASS on the original code - verify both yourself; it must be deterministic (or repeat enough to be reliable) and finish within a minute; use fake connections/servers/in-memory pipes where needed, never the network;\n3. /tmp/seed/{ID}-{R}/SEED.md describing: what you changed and where, why it breaks the property, what it needs in order to manifest, and the exact commands you ran with their results.\n\nFinish by reporting: the output of `git -C /tmp/seed/{ID}-{R} diff` (source change only), the demo file path(s), and the observed results of the runs (suite with change, demo with change, demo without change). If your first idea turns out to be caught by the existing tests, try another. If, while reading, you notice something in the UNCHANGED code that already violates the property, mention it briefly at the end of your report (do not use it as your seed).\n'
